@@ -195,7 +195,7 @@ class CBMachine(object):
             return float(e[1])
         if k == "hex":
             return float(e[1])
-        if k == "str":
+        if k in ("str", "ostr"):
             return e[1]
         if k == "var":
             return self.get(e[1])
